@@ -139,6 +139,7 @@ type Trans struct {
 	noFrame bool
 	freshRefs map[string]bool
 	knownNew  map[string]bool
+	atCallN   map[string]int
 	lastCallScope *Scope
 	knownOld  map[string]bool
 	curBinds []*Val
